@@ -530,6 +530,12 @@ def compare(eng, op, a, b, st, fr, k):
 
 def contains(eng, cont, x, st, fr, k):
     """x in cont -> k(st, Bool)"""
+    if isinstance(cont, SOptRef):
+        inner_ = SRef(cont.t, cont.inner)
+        if st.spec:
+            return contains(eng, inner_, x, st, fr, k)
+        return eng.branch(st, cont.t != 0, lambda s_: contains(eng, inner_, x, s_, fr, k),
+                          lambda s_: eng.raise_new(s_, "TypeError"), "optional")
     from .symex import EngineError
     if isinstance(cont, SConstSeq):
         if cont.pykind == "dict":
@@ -571,6 +577,12 @@ def norm_index(i_t, n_t):
 
 
 def index_value(eng, o, i, st, fr, k):
+    if isinstance(o, SOptRef):
+        inner_ = SRef(o.t, o.inner)
+        if st.spec:
+            return index_value(eng, inner_, i, st, fr, k)
+        return eng.branch(st, o.t != 0, lambda s_: index_value(eng, inner_, i, s_, fr, k),
+                          lambda s_: eng.raise_new(s_, "TypeError"), "optional")
     from .symex import EngineError
     if isinstance(o, SRef) and o.kind.startswith("list:"):
         if not isinstance(i, (SInt, SBool)):
@@ -726,6 +738,12 @@ def reversed_slice(eng, o, lo_t, hi_t, st, fr, k):
 
 
 def store_index(eng, o, i, v, st, fr, k):
+    if isinstance(o, SOptRef):
+        inner_ = SRef(o.t, o.inner)
+        if st.spec:
+            return store_index(eng, inner_, i, v, st, fr, k)
+        return eng.branch(st, o.t != 0, lambda s_: store_index(eng, inner_, i, v, s_, fr, k),
+                          lambda s_: eng.raise_new(s_, "TypeError"), "optional")
     from .symex import EngineError
     if isinstance(o, SRef) and o.kind.startswith("list:"):
         n = eng.list_len(st, o)
@@ -742,6 +760,12 @@ def store_index(eng, o, i, v, st, fr, k):
 
 
 def delete_index(eng, o, i, st, fr, k):
+    if isinstance(o, SOptRef):
+        inner_ = SRef(o.t, o.inner)
+        if st.spec:
+            return delete_index(eng, inner_, i, st, fr, k)
+        return eng.branch(st, o.t != 0, lambda s_: delete_index(eng, inner_, i, s_, fr, k),
+                          lambda s_: eng.raise_new(s_, "TypeError"), "optional")
     from .symex import EngineError
     if isinstance(o, SRef) and o.kind.startswith("dict:"):
         kk, vk = dict_kinds(o.kind)
